@@ -15,6 +15,7 @@ Static clauses:
           again, X is parsed twice at the same position and nesting depth d costs 2^d - "fails to terminate" for every
           practical purpose well inside the property's depth bound of 64.  Such sites are found on the grammar AST (left
           corners, nullability, reachability) and reported.
+  G-RETYPE  the memo-less typing recursion (`target_type`) is entered at most once per child on a path (no 2^depth typing time)
 Not decided: termination of recursion / stack depth in general; panics inside pest itself beyond the Pratt shape rule.
 """
 import re
